@@ -12,7 +12,7 @@ PROP = "C07"
 def run(ctx):
     tot_s = tot_t = 0
     bounds = []
-    scen = ctx.pick(["T", "T,T'", "T+fetch", "T;purge@B", "T,T';purge@B", "T;purge@A", "T-to-holder"], list(dsworld.SCENARIOS))
+    scen = ctx.pick(["T", "T,T'", "T+fetch", "T;purge@B", "T,T';purge@B", "T;purge@A", "T-to-holder", "T(d:A>B),T(e:B>A)", "T(d),T(e);purge(e)@A"], list(dsworld.SCENARIOS))
     faults = ctx.pick(1, 2)
     depth = ctx.pick(60, 80)
     budget = ctx.pick(150, 3000) / len(scen)
@@ -20,29 +20,36 @@ def run(ctx):
         sc = dsworld.SCENARIOS[name]
         f = faults if not (ctx.quick and name in ("T,T';purge@B",)) else 1
 
-        def expand(hist, sc=sc, f=f):
-            w = dsworld.build(sc, f, hist)
+        early = 0 if ctx.quick else (1 if "purge" in name else 0)
+
+        def expand(hist, sc=sc, f=f, early=early):
+            w = dsworld.build(sc, f, hist, early)
             out = []
             en = w.enabled()
             # the fair closure is one of the fault-free continuations the BFS explores anyway: it is only needed where
             # the exploration stops -- at terminal states and at the depth bound
             if not w.viol and (not en or len(hist) >= depth - 1):
-                cl = dsworld.build(sc, f, hist).closure()
+                cl = dsworld.build(sc, f, hist, early).closure()
                 if cl:
                     out.append((None, None, cl))
             for ev in en:
-                q = dsworld.build(sc, f, hist + [ev])
+                q = dsworld.build(sc, f, hist + [ev], early)
                 out.append((ev, None if q.viol else q.canon(), list(q.viol)))
             return out
 
-        r = bfs.bfs(expand, dsworld.build(sc, f, []).canon(), depth, deadline=time.time() + budget)
+        r = bfs.bfs(expand, dsworld.build(sc, f, [], early).canon(), depth, deadline=time.time() + budget)
         tot_s += r["states"]
         tot_t += r["transitions"]
-        bounds.append({"scenario": name, "fault_budget": f, "depth_completed": r["depth"], "closed": r["closed"], "states": r["states"], "capped": r["capped"]})
+        bounds.append({"scenario": name, "fault_budget": f, "early_timer_budget": early, "depth_completed": r["depth"], "closed": r["closed"], "states": r["states"], "capped": r["capped"]})
         for (mon, cause), (m, hist) in r["violations"].items():
-            ctx.add_violation(common.Violation({"monitor": mon, "cause": cause}, f"[{name}, F={f}] {m}; history={hist}", {"scenario": name, "faults": f, "history": hist}))
+            ctx.add_violation(common.Violation({"monitor": mon, "cause": cause}, f"[{name}, F={f}] {m}; history={hist}", {"scenario": name, "faults": f, "early": early, "history": hist}))
         for h in r["samples"][:1]:
             ctx.sample({"scenario": name, "commands": sc["commands"], "history": h}, cap=4)
+    runs, bv = dsworld.batch_pass_check()
+    for (m, c, msg_, rp) in bv:
+        ctx.add_violation(common.Violation({"monitor": m, "cause": c}, f"[batch pass] {msg_}", rp))
+    tot_t += runs
+    ctx.coverage["batch_pass_executions"] = runs
     ctx.coverage.update(states=tot_s, transitions=tot_t, traces_validated_against_impl=tot_t, bounds=bounds,
                         exhaustive=all(not b["capped"] for b in bounds), closure_reached=all(b["closed"] for b in bounds))
     ctx.assume("a purge reaches a data server only after its executor saw the dataset published on that host (executor gating), and a source is purged only once the transfer command was processed there (C04)",
@@ -51,7 +58,10 @@ def run(ctx):
 
 
 def replay(ctx, data):
+    if data.get("batch"):
+        _, bv = dsworld.batch_pass_check()
+        return [common.Violation({"monitor": m, "cause": c}, msg_, rp) for (m, c, msg_, rp) in bv]
     sc = dsworld.SCENARIOS[data["scenario"]]
-    w = dsworld.build(sc, data["faults"], data["history"])
-    v = list(w.viol) or dsworld.build(sc, data["faults"], data["history"]).closure()
+    w = dsworld.build(sc, data["faults"], data["history"], data.get("early", 0))
+    v = list(w.viol) or dsworld.build(sc, data["faults"], data["history"], data.get("early", 0)).closure()
     return [common.Violation({"monitor": m, "cause": c}, msg, data) for (m, c, msg) in v]
